@@ -58,7 +58,11 @@ int cv_addr_assign(const char *s)
  * ARBITRARY int and raises cv_sscanf_ovf[i].  Nothing else about the text is modelled: the values are arbitrary. */
 int sscanf(const char *str, const char *fmt, int *a0, int *a1, int *a2, int *a3, int *a4, int *a5)
 {
-    __CPROVER_assert(fmt_is(fmt, "%d,%d,%d,%d,%d,%d", 18), "sscanf stub: only the \"%d,%d,%d,%d,%d,%d\" format is modelled");
+    /* two formats are modelled: plain %d (a component that does not fit int is undefined behaviour: arbitrary value + ovf flag)
+     * and %4d (C11 7.21.6.2p9: at most 4 characters are consumed per item, so every stored value lies in [-999, 9999]) */
+    const _Bool plain = fmt_is(fmt, "%d,%d,%d,%d,%d,%d", 18);
+    const _Bool width4 = fmt_is(fmt, "%4d,%4d,%4d,%4d,%4d,%4d", 24);
+    __CPROVER_assert(plain || width4, "stub: sscanf models only the \"%d,%d,%d,%d,%d,%d\" and \"%4d,%4d,%4d,%4d,%4d,%4d\" formats");
     __CPROVER_assert(__CPROVER_r_ok(str, 1), "sscanf stub: str is readable");
     __CPROVER_assert(__CPROVER_w_ok(a0, sizeof(int)) && __CPROVER_w_ok(a1, sizeof(int)) && __CPROVER_w_ok(a2, sizeof(int)) &&
                      __CPROVER_w_ok(a3, sizeof(int)) && __CPROVER_w_ok(a4, sizeof(int)) && __CPROVER_w_ok(a5, sizeof(int)),
@@ -68,6 +72,7 @@ int sscanf(const char *str, const char *fmt, int *a0, int *a1, int *a2, int *a3,
     int *t[6] = { a0, a1, a2, a3, a4, a5 };
     for (int i = 0; i < 6; i++) {
         cv_sscanf_v[i] = 0; cv_sscanf_ovf[i] = 0;
+        if (width4) { __CPROVER_assume(v[i] >= -999 && v[i] <= 9999); o[i] = 0; }
         if (i < n) { *t[i] = v[i]; cv_sscanf_v[i] = v[i]; cv_sscanf_ovf[i] = o[i]; }
     }
     cv_sscanf_n = n;
